@@ -428,6 +428,9 @@ def run_session(case: dict) -> list[str]:
                 box["a_write_error"] = errname(e)
                 return
             rec.line(f"ret {t} sent")
+            # the only writer of this side has returned from a write call: the outgoing BIO is empty
+            if tls._write_bio.pending or tls._data_deque:
+                box.setdefault("left_behind", []).append(f"a:{op[0]}:pending={tls._write_bio.pending}:backlog={len(tls._data_deque)}")
             if len(op) > 2:
                 await env.pause(op[2])
 
@@ -519,6 +522,8 @@ def run_session(case: dict) -> list[str]:
             lines.append(f"o.{k} {box[k]}")
     if peer is not None and peer.error:
         lines.append(f"o.peer-error {peer.error}")
+    if box.get("left_behind"):
+        lines.append("o.left-behind " + ",".join(box["left_behind"]))
     if A is not None and peer is not None:
         lines.append(f"o.a2b written={dg(pa)} received={dg(bytes(peer.received))} prefix={int(pa.startswith(bytes(peer.received)))}")
         lines.append(f"o.b2a written={dg(pb)} received={dg(bytes(box['received']))} prefix={int(pb.startswith(bytes(box['received'])))}")
